@@ -630,6 +630,8 @@ func writeEvidence(prop, tier string, seed uint64, info propInfo, agg *stats, se
 		"samples":                samples,
 		"cli_runs":               agg.CLIRuns,
 		"runs_per_hour":          int64(perHour),
+		"seeds_per_hour":         int64(float64(agg.Batches) / budget * 3600),
+		"seed_note":              "one seed = one rapid batch seed derived from (VERIF_SEED, worker, batch); rapid_batches of them were explored, each an exactly repeatable sequence of scenarios",
 		"worker_seeds":           seeds,
 		"rapid_batches":          agg.Batches,
 		"workers":                nw,
